@@ -1,4 +1,5 @@
 import XpmVerif.Model.RunnerEff
+import XpmVerif.Proofs.Runner
 /-! Lemmas on the effect view of the Runner model (`Model/RunnerEff.lean`), for every configuration of the model:
     * `step_shared_is_effects` — the label of a step is faithful: the step changes the shared state exactly as its effects say;
     * `body_loop`, `traceProc_add` — a process alone;
@@ -179,6 +180,12 @@ theorem runAlone_proj (cfg : Cfg) (i n : Nat) (s : St) (hi : i < s.n) :
     have := ih (act cfg s (.step i)) (by omega)
     simp only [runAlone, runProc]
     rw [this.1, this.2, hn, h1]; exact ⟨rfl, rfl⟩
+
+/-- `runProc` is the `soloIter` of `Proofs/Runner.lean` (the state side of the solo lemmas used by C10) -/
+theorem runProc_eq_soloIter (cfg : Cfg) (i k : Nat) (x : Shared × Proc) : runProc cfg i k x = soloIter cfg i k x := by
+  induction k generalizing x with
+  | zero => rfl
+  | succ k ih => simp only [runProc, soloIter, ih]
 
 /-! ### meaning of the order checkers -/
 
